@@ -100,6 +100,12 @@ func ReceiveFeedback(item *models.Item) error {
 		panic("item is not a seed")
 	}
 
+	// Feedback for a seed that is not tracked must not create a state table entry:
+	// a later MarkAsFinished would release a token that was never taken.
+	if _, tracked := globalReactor.stateTable.Load(item.GetID()); !tracked {
+		return ErrFeedbackItemNotPresent
+	}
+
 	item.SetSource(models.ItemSourceFeedback)
 	_, loaded := globalReactor.stateTable.Swap(item.GetID(), item)
 	if !loaded {
